@@ -76,19 +76,19 @@ func classify(op string, res *wamp.Result, err error) []any {
 }
 
 type world struct {
-	sc      Scenario
-	start   time.Time
-	mu      sync.Mutex
-	out     []Obs
-	pending map[string][]int // op -> API calls started, request not yet seen by the router
-	names   map[int]string
-	req     map[int]uint64
-	conc    []Stim
-	rclosed bool
-	retd    map[int]bool
+	sc       Scenario
+	start    time.Time
+	mu       sync.Mutex
+	out      []Obs
+	pending  map[string][]int // op -> API calls started, request not yet seen by the router
+	names    map[int]string
+	req      map[int]uint64
+	conc     []Stim
+	rclosed  bool
+	retd     map[int]bool
 	startedG map[int]bool
-	inEvent atomic.Int32
-	overlap atomic.Bool
+	inEvent  atomic.Int32
+	overlap  atomic.Bool
 }
 
 func (w *world) ms() int { return int(time.Since(w.start) / time.Millisecond) }
@@ -239,8 +239,14 @@ func runScenario(t *testing.T, sc Scenario) (res Result) {
 		w = &world{sc: sc, start: time.Now(), pending: map[string][]int{}, names: map[int]string{}, req: map[int]uint64{},
 			retd: map[int]bool{}, startedG: map[int]bool{}}
 
-		send := func(tag string, m []any) {
+		// record and send in one critical section: the concrete history lists the router's
+		// messages in the order they really entered the transport
+		var sendMu sync.Mutex
+		send := func(tag string, st Stim) {
+			sendMu.Lock()
+			defer sendMu.Unlock()
 			w.mu.Lock()
+			w.conc = append(w.conc, st)
 			closed := w.rclosed
 			w.mu.Unlock()
 			if closed {
@@ -248,7 +254,7 @@ func runScenario(t *testing.T, sc Scenario) (res Result) {
 				return
 			}
 			select {
-			case rp.Send() <- buildMsg(m):
+			case rp.Send() <- buildMsg(st.M):
 			default:
 				w.obs("router_blocked")
 			}
@@ -283,11 +289,11 @@ func runScenario(t *testing.T, sc Scenario) (res Result) {
 						reply := []any{float64(6), map[string]any{}, "wamp.close.goodbye_and_out"}
 						go func() {
 							time.Sleep(time.Duration(d) * time.Millisecond)
-							w.mu.Lock()
-							w.conc = append(w.conc, Stim{T: w.ms(), Stim: "router", M: reply})
-							w.mu.Unlock()
-							send("router", reply)
+							send("router", Stim{T: w.ms(), Stim: "router", M: reply})
 						}()
+					}
+					if cfg.StallAfterGoodbye {
+						return // the session is over for the router: it reads no more
 					}
 				}
 			}
@@ -442,19 +448,17 @@ func runScenario(t *testing.T, sc Scenario) (res Result) {
 				// this instant happens: a router cannot answer a request it has not received
 				synctest.Wait()
 			case "router":
-				m := w.resolve(st.M)
 				cs := st
-				cs.M = m
-				w.mu.Lock()
-				w.conc = append(w.conc, cs)
-				w.mu.Unlock()
-				send("router", m)
+				cs.M = w.resolve(st.M)
+				send("router", cs)
 			case "rclose":
+				sendMu.Lock()
 				w.mu.Lock()
 				already := w.rclosed
 				w.rclosed = true
 				w.conc = append(w.conc, st)
 				w.mu.Unlock()
+				sendMu.Unlock()
 				if already {
 					w.obs("rejected", "rclose")
 				} else {
